@@ -101,3 +101,277 @@ Section Pss.
            end; discriminate.
   Qed.
 End Pss.
+
+(* ================================================================================ *)
+(* signing then verifying succeeds, for every salt *)
+From TV Require Import Proofs.C10_ListP.
+
+Lemma divceil_bounds a b : 0 <= a -> 0 < b -> a <= divceil a b * b < a + b.
+Proof.
+  intros Ha Hb. unfold divceil.
+  pose proof (Z.div_mod a b ltac:(lia)) as D. pose proof (Z.mod_pos_bound a b Hb) as M.
+  destruct (a mod b =? 0) eqn:E.
+  - apply Z.eqb_eq in E. nia.
+  - apply Z.eqb_neq in E. nia.
+Qed.
+
+Lemma all_bytes_firstn n l : all_bytes l = true -> all_bytes (firstn n l) = true.
+Proof.
+  revert n. induction l as [|x l IH]; intros [|n] H; try reflexivity.
+  cbn [firstn all_bytes forallb] in *. apply andb_true_iff in H. destruct H as [A B].
+  rewrite A. apply IH. exact B.
+Qed.
+
+Section PssSound.
+  Variable hash : list Z -> list Z.
+  Variable hLen : Z.
+  Hypothesis HhLen : 0 < hLen.
+  Hypothesis Hlen : forall m, zlen (hash m) = hLen.
+  Hypothesis Hbytes : forall m, all_bytes (hash m) = true.
+
+  Lemma mgf_fold seed l : forall acc,
+    zlen (fold_left (fun T x => T ++ hash (seed ++ numberToByteArray x 4)) l acc) = zlen acc + hLen * zlen l /\
+    (all_bytes acc = true ->
+     all_bytes (fold_left (fun T x => T ++ hash (seed ++ numberToByteArray x 4)) l acc) = true).
+  Proof.
+    induction l as [|x l IH]; intros acc; cbn [fold_left].
+    - change (zlen (@nil Z)) with 0. split; [lia|auto].
+    - destruct (IH (acc ++ hash (seed ++ numberToByteArray x 4))) as [A B]. split.
+      + rewrite A, zlen_app, Hlen, zlen_cons. lia.
+      + intros Hacc. apply B. rewrite all_bytes_app, Hacc, Hbytes. reflexivity.
+  Qed.
+
+  Lemma MGF1_ok seed maskLen : 0 <= maskLen <= 2 ^ 32 * hLen ->
+    exists mask, MGF1 hash hLen seed maskLen = Ok mask /\ zlen mask = maskLen /\ all_bytes mask = true.
+  Proof.
+    intros H. unfold MGF1.
+    destruct (maskLen >? 2 ^ 32 * hLen) eqn:E; [rewrite Z.gtb_ltb in E; apply Z.ltb_lt in E; lia|].
+    eexists. split; [reflexivity|].
+    set (T := fold_left _ _ _).
+    destruct (mgf_fold seed (zrange 0 (divceil maskLen hLen)) []) as [A B]. fold T in A, B.
+    pose proof (divceil_bounds maskLen hLen ltac:(lia) HhLen) as DB.
+    assert (LT : maskLen <= zlen T).
+    { rewrite A. unfold zlen at 1 2. cbn [Datatypes.length]. rewrite zrange_length.
+      assert (0 <= divceil maskLen hLen) by nia. rewrite Z.sub_0_r, Z2Nat.id by lia. lia. }
+    rewrite py_slice_prefix by lia. split.
+    - unfold zlen. rewrite firstn_length_le; [lia|]. unfold zlen in LT. lia.
+    - apply all_bytes_firstn. apply B. reflexivity.
+  Qed.
+
+  Lemma mask_facts emBits :
+    0 < emBits ->
+    let emLen := divceil emBits 8 in
+    let mLen := emLen * 8 - emBits in
+    let mask := Z.shiftl 1 (8 - mLen) - 1 in
+    0 <= mLen <= 7 /\ mask = Z.ones (8 - mLen) /\ Z.land 0 mask = 0 /\ Z.land 1 mask = 1 /\ 1 <= emLen.
+  Proof.
+    intros H emLen mLen mask.
+    pose proof (divceil_bounds emBits 8 ltac:(lia) ltac:(lia)) as B. fold emLen in B.
+    assert (M : 0 <= mLen <= 7) by (unfold mLen; lia).
+    assert (E : mask = Z.ones (8 - mLen)).
+    { unfold mask. rewrite Z.ones_equiv, Z.shiftl_1_l. lia. }
+    repeat split; try lia.
+    - rewrite E, Z.land_ones by lia. apply Z.mod_1_l.
+      replace (8 - mLen) with (1 + (7 - mLen)) by lia. rewrite Z.pow_add_r by lia.
+      pose proof (Z.pow_pos_nonneg 2 (7 - mLen) ltac:(lia) ltac:(lia)). lia.
+  Qed.
+
+  Theorem pss_encode_then_verify mHash emBits salt EM :
+    0 < emBits -> all_bytes salt = true -> divceil emBits 8 - hLen - 1 <= 2 ^ 32 * hLen ->
+    EMSA_PSS_encode hash hLen mHash emBits salt = Ok EM ->
+    zlen EM = divceil emBits 8 /\ all_bytes EM = true /\ bytesToNumber EM < 2 ^ emBits /\
+    EMSA_PSS_verify hash hLen mHash EM emBits (zlen salt) = Ok true.
+  Proof.
+    intros Hbits Hsalt Hsmall. unfold EMSA_PSS_encode.
+    set (sLen := zlen salt). set (emLen := divceil emBits 8).
+    pose proof (zlen_nonneg salt) as HsL. fold sLen in HsL.
+    destruct (emLen <? hLen + sLen + 2) eqn:E0; [discriminate|]. apply Z.ltb_ge in E0.
+    set (H := hash (zeros 8 ++ mHash ++ salt)).
+    set (psn := emLen - sLen - hLen - 2).
+    assert (Hpsn : 0 <= psn) by (unfold psn; lia).
+    destruct (MGF1_ok H (emLen - hLen - 1) ltac:(lia)) as [dbMask [EM1 [LM BM]]].
+    rewrite EM1. cbn [bind].
+    destruct (mask_facts emBits Hbits) as (HmLen & Hmask & Hl0 & Hl1 & HemLen).
+    fold emLen in HmLen, Hmask, Hl0, Hl1, HemLen.
+    set (mask := Z.shiftl 1 (8 - (emLen * 8 - emBits)) - 1) in *.
+    set (DB := zeros psn ++ [1] ++ salt).
+    assert (LDB : zlen DB = emLen - hLen - 1).
+    { unfold DB. rewrite !zlen_app, zeros_zlen by lia. change (zlen [1]) with 1. fold sLen. unfold psn. lia. }
+    assert (BDB : all_bytes DB = true).
+    { unfold DB. rewrite !all_bytes_app, zeros_bytes, Hsalt. reflexivity. }
+    assert (HD : exists d0 DBt, DB = d0 :: DBt /\ (d0 = 0 \/ d0 = 1)).
+    { unfold DB, zeros. destruct (Z.to_nat psn); cbn [repeat app]; eauto. }
+    destruct HD as [d0 [DBt [EDB Hd0]]].
+    destruct dbMask as [|mk0 mkt]; [change (zlen (@nil Z)) with 0 in LM; lia|].
+    assert (Ltl : Datatypes.length DBt = Datatypes.length mkt).
+    { rewrite EDB in LDB. rewrite zlen_cons in LDB, LM. unfold zlen in LDB, LM. lia. }
+    rewrite EDB, xor_bytes_cons. cbn [and_first bind].
+    intros Hinj. injection Hinj as <-.
+    set (m0 := Z.land (Z.lxor d0 mk0) mask).
+    set (mdb := m0 :: xor_bytes DBt mkt).
+    change (m0 :: xor_bytes DBt mkt ++ H ++ [188]) with (mdb ++ H ++ [188]).
+    assert (Lmdb : zlen mdb = emLen - hLen - 1).
+    { unfold mdb. rewrite zlen_cons. unfold zlen. rewrite xor_bytes_length by exact Ltl.
+      rewrite <- LDB, EDB, zlen_cons. unfold zlen. lia. }
+    assert (Bd0 : 0 <= d0 < 256) by (destruct Hd0; subst; lia).
+    assert (BDBt : all_bytes DBt = true).
+    { rewrite EDB in BDB. cbn [all_bytes forallb] in BDB. apply andb_true_iff in BDB. tauto. }
+    assert (Bmk : 0 <= mk0 < 256 /\ all_bytes mkt = true).
+    { cbn [all_bytes forallb] in BM. apply andb_true_iff in BM. destruct BM as [A B]. apply is_byte_iff in A. auto. }
+    assert (Bm0 : 0 <= m0 < 2 ^ (8 - (emLen * 8 - emBits))).
+    { unfold m0. rewrite Hmask, Z.land_ones by lia. apply Z.mod_pos_bound.
+      apply Z.pow_pos_nonneg; lia. }
+    assert (Bm0' : 0 <= m0 < 256).
+    { split; [lia|]. eapply Z.lt_le_trans; [apply Bm0|]. change 256 with (2 ^ 8). apply Z.pow_le_mono_r; lia. }
+    assert (Bmdb : all_bytes mdb = true).
+    { unfold mdb. cbn [all_bytes forallb]. apply andb_true_iff. split; [apply is_byte_iff; exact Bm0'|].
+      apply xor_bytes_bytes; tauto. }
+    assert (LH : zlen H = hLen) by apply Hlen.
+    split; [|split; [|split]].
+    - rewrite !zlen_app, Lmdb, LH. change (zlen [188]) with 1. lia.
+    - rewrite !all_bytes_app, Bmdb. unfold H. rewrite Hbytes. reflexivity.
+    - (* value below 2^emBits *)
+      unfold mdb. cbn [app]. rewrite b2n_cons.
+      set (rest := xor_bytes DBt mkt ++ H ++ [188]).
+      assert (Brest : all_bytes rest = true).
+      { unfold rest. rewrite !all_bytes_app. unfold H at 1. rewrite Hbytes, xor_bytes_bytes by tauto. reflexivity. }
+      assert (Lrest : zlen rest = emLen - 1).
+      { unfold rest. rewrite !zlen_app, LH. change (zlen [188]) with 1.
+        unfold mdb in Lmdb. rewrite zlen_cons in Lmdb. lia. }
+      pose proof (b2n_range rest Brest) as R. rewrite Lrest in R.
+      assert (P : 2 ^ emBits = 2 ^ (8 - (emLen * 8 - emBits)) * 256 ^ (emLen - 1)).
+      { rewrite (pow256 (emLen - 1)) by lia. rewrite <- Z.pow_add_r by lia. f_equal. lia. }
+      rewrite P, Lrest.
+      set (W := 256 ^ (emLen - 1)) in *. set (V := 2 ^ (8 - (emLen * 8 - emBits))) in *.
+      assert (m0 + 1 <= V) by lia. nia.
+    - (* verification of the encoded message *)
+      unfold EMSA_PSS_verify. fold emLen. fold sLen.
+      destruct (emLen <? hLen + sLen + 2) eqn:E0'; [apply Z.ltb_lt in E0'; lia|].
+      replace (mdb ++ H ++ [188]) with ((mdb ++ H) ++ [188]) at 1 by (rewrite app_assoc; reflexivity).
+      rewrite py_index_last. cbn [bind]. rewrite Z.eqb_refl. cbn [negb].
+      replace (emLen - hLen - 1) with (zlen mdb) by exact Lmdb.
+      rewrite py_slice_app_first.
+      replace (zlen mdb + hLen) with (zlen mdb + zlen H) by (rewrite LH; reflexivity).
+      rewrite py_slice_app_mid.
+      unfold mdb at 1. rewrite py_index_head. cbn [bind].
+      replace (8 * emLen - emBits) with (emLen * 8 - emBits) by ring. fold mask.
+      unfold m0 at 1. rewrite land_mask_topmask. rewrite Z.eqb_refl. cbn [negb].
+      rewrite Lmdb, EM1. cbn [bind].
+      unfold mdb. rewrite xor_bytes_cons, xor_bytes_involutive by exact Ltl. cbn [and_first bind].
+      unfold m0. rewrite mask_xor_mask.
+      assert (Ed0 : Z.land d0 mask = d0) by (destruct Hd0; subst; assumption).
+      rewrite Ed0, <- EDB.
+      replace (emLen - hLen - sLen - 2) with (zlen (zeros psn)) by (rewrite zeros_zlen by lia; unfold psn; lia).
+      unfold DB at 1. rewrite py_slice_app_first.
+      assert (Ez : existsb (fun x => negb (x =? 0)) (zeros psn) = false).
+      { apply existsb_nonzero_false. intros x Hx. apply zeros_all_zero in Hx. exact Hx. }
+      rewrite Ez.
+      unfold DB at 1. cbn [app]. rewrite py_index_mid. cbn [bind]. rewrite Z.eqb_refl. cbn [negb].
+      assert (Esalt : (if negb (sLen =? 0) then py_slice DB (Some (- sLen)) None else []) = salt).
+      { destruct (sLen =? 0) eqn:Es; cbn [negb].
+        - apply Z.eqb_eq in Es. unfold sLen in Es. destruct salt; [reflexivity|]. rewrite zlen_cons in Es.
+          pose proof (zlen_nonneg salt). lia.
+        - apply Z.eqb_neq in Es. unfold DB. rewrite app_assoc. unfold sLen. apply py_slice_suffix_neg. fold sLen. lia. }
+      rewrite Esalt. fold H. rewrite list_eqb_refl. reflexivity.
+  Qed.
+End PssSound.
+
+(* emLen = ceil((modBits-1)/8) equals the modulus length in bytes unless modBits = 1 mod 8 *)
+Lemma emLen_vs_numBytes B : 1 <= B ->
+  (B mod 8 <> 1 -> divceil (B - 1) 8 = (B + 7) / 8) /\
+  (B mod 8 = 1 -> divceil (B - 1) 8 = (B + 7) / 8 - 1).
+Proof.
+  intros HB. unfold divceil.
+  destruct ((B - 1) mod 8 =? 0) eqn:E; [apply Z.eqb_eq in E|apply Z.eqb_neq in E];
+    split; intros H; Z.div_mod_to_equations; lia.
+Qed.
+
+Section PssRsa.
+  Variable hash : list Z -> list Z.
+  Variable hLen : Z.
+  Hypothesis HhLen : 0 < hLen.
+  Hypothesis Hlen : forall m, zlen (hash m) = hLen.
+  Hypothesis Hbytes : forall m, all_bytes (hash m) = true.
+  Variables n e : Z.
+  Variable priv : Z -> Z.
+  Hypothesis Hn : 0 < n.
+  Hypothesis Hsz : numBytes n <= 2 ^ 32.
+  Hypothesis Hpriv : forall x, 0 <= x < n -> 0 <= priv x < n /\ powmod (priv x) e n = x.
+
+  Theorem pss_sign_then_verify mHash salt S :
+    numBits n mod 8 <> 1 -> all_bytes salt = true ->
+    RSASSA_PSS_sign hash hLen n priv mHash salt = Ok S ->
+    RSASSA_PSS_verify hash hLen n e mHash S (zlen salt) = Ok true.
+  Proof.
+    intros Hmod Hsalt. unfold RSASSA_PSS_sign.
+    pose proof (numBits_pos n Hn) as HB.
+    assert (HB2 : 2 <= numBits n).
+    { destruct (Z.eq_dec (numBits n) 1) as [E|E]; [rewrite E in Hmod; cbn in Hmod; lia|lia]. }
+    destruct (emLen_vs_numBytes (numBits n) HB) as [EL _]. specialize (EL Hmod). fold (numBytes n) in EL.
+    destruct (EMSA_PSS_encode hash hLen mHash (numBits n - 1) salt) as [EM|x] eqn:Eenc; cbn [bind]; [|discriminate].
+    assert (Hsmall : divceil (numBits n - 1) 8 - hLen - 1 <= 2 ^ 32 * hLen) by (rewrite EL; nia).
+    destruct (pss_encode_then_verify hash hLen HhLen Hlen Hbytes mHash (numBits n - 1) salt EM ltac:(lia) Hsalt Hsmall Eenc)
+      as (LEM & BEM & VEM & Hver).
+    rewrite EL in LEM.
+    pose proof (numBits_spec n Hn) as [Hlow _].
+    pose proof (b2n_range EM BEM) as [H0 _].
+    unfold raw_private_key_op_bytes. rewrite LEM, Z.eqb_refl. cbn [negb].
+    destruct (bytesToNumber EM >=? n) eqn:E1; [rewrite Z.geb_leb in E1; apply Z.leb_le in E1; lia|].
+    intros Hs. injection Hs as <-.
+    destruct (Hpriv (bytesToNumber EM) ltac:(lia)) as [[P0 P1] P2].
+    pose proof (numBytes_pos n Hn) as Hk. pose proof (numBytes_upper n Hn) as Hu.
+    unfold RSASSA_PSS_verify, raw_public_key_op_bytes.
+    rewrite n2b_zlen by lia. rewrite Z.eqb_refl. cbn [negb]. rewrite b2n_n2b by lia.
+    destruct (priv (bytesToNumber EM) >=? n) eqn:E2; [rewrite Z.geb_leb in E2; apply Z.leb_le in E2; lia|].
+    unfold raw_public_op. rewrite P2. rewrite n2b_b2n by assumption.
+    rewrite Hver. reflexivity.
+  Qed.
+
+  (* signing succeeds whenever hash and salt fit *)
+  Theorem pss_sign_succeeds mHash salt :
+    numBits n mod 8 <> 1 -> all_bytes salt = true -> hLen + zlen salt + 2 <= numBytes n ->
+    exists S, RSASSA_PSS_sign hash hLen n priv mHash salt = Ok S.
+  Proof.
+    intros Hmod Hsalt Hfit. unfold RSASSA_PSS_sign.
+    pose proof (numBits_pos n Hn) as HB.
+    assert (HB2 : 2 <= numBits n).
+    { destruct (Z.eq_dec (numBits n) 1) as [E|E]; [rewrite E in Hmod; cbn in Hmod; lia|lia]. }
+    destruct (emLen_vs_numBytes (numBits n) HB) as [EL _]. specialize (EL Hmod). fold (numBytes n) in EL.
+    assert (Hsmall : divceil (numBits n - 1) 8 - hLen - 1 <= 2 ^ 32 * hLen) by (rewrite EL; nia).
+    destruct (EMSA_PSS_encode hash hLen mHash (numBits n - 1) salt) as [EM|x] eqn:Eenc; cbn [bind].
+    - destruct (pss_encode_then_verify hash hLen HhLen Hlen Hbytes mHash (numBits n - 1) salt EM ltac:(lia) Hsalt Hsmall Eenc)
+        as (LEM & BEM & VEM & _).
+      rewrite EL in LEM. pose proof (numBits_spec n Hn) as [Hlow _]. pose proof (b2n_range EM BEM) as [H0 _].
+      unfold raw_private_key_op_bytes. rewrite LEM, Z.eqb_refl. cbn [negb].
+      destruct (bytesToNumber EM >=? n) eqn:E1; [rewrite Z.geb_leb in E1; apply Z.leb_le in E1; lia|].
+      eexists. reflexivity.
+    - exfalso. unfold EMSA_PSS_encode in Eenc. rewrite EL in Eenc.
+      destruct (numBytes n <? hLen + zlen salt + 2) eqn:E0; [apply Z.ltb_lt in E0; lia|].
+      pose proof (zlen_nonneg salt).
+      destruct (MGF1_ok hash hLen HhLen Hlen Hbytes (hash (zeros 8 ++ mHash ++ salt)) (numBytes n - hLen - 1)) as [m [Em [Lm _]]];
+        [rewrite EL in Hsmall; lia|].
+      rewrite Em in Eenc. cbn [bind] in Eenc.
+      destruct m as [|m0 mt]; [change (zlen (@nil Z)) with 0 in Lm; lia|].
+      set (DB := zeros (numBytes n - zlen salt - hLen - 2) ++ [1] ++ salt) in Eenc.
+      destruct DB as [|d0 DBt] eqn:EDB.
+      + unfold DB in EDB. destruct (zeros (numBytes n - zlen salt - hLen - 2)); discriminate.
+      + rewrite xor_bytes_cons in Eenc. cbn [and_first bind] in Eenc. discriminate.
+  Qed.
+
+  (* modBits = 1 mod 8: EM has one byte fewer than the modulus, the raw operation refuses it *)
+  Theorem pss_sign_fails_modbits_1_mod_8 mHash salt :
+    numBits n mod 8 = 1 -> 2 <= numBits n -> all_bytes salt = true ->
+    exists x, RSASSA_PSS_sign hash hLen n priv mHash salt = Err x.
+  Proof.
+    intros Hmod HB2 Hsalt. unfold RSASSA_PSS_sign.
+    pose proof (numBits_pos n Hn) as HB.
+    destruct (emLen_vs_numBytes (numBits n) HB) as [_ EL]. specialize (EL Hmod). fold (numBytes n) in EL.
+    destruct (EMSA_PSS_encode hash hLen mHash (numBits n - 1) salt) as [EM|x] eqn:Eenc; cbn [bind]; [|eexists; reflexivity].
+    assert (Hsmall : divceil (numBits n - 1) 8 - hLen - 1 <= 2 ^ 32 * hLen) by (rewrite EL; nia).
+    destruct (pss_encode_then_verify hash hLen HhLen Hlen Hbytes mHash (numBits n - 1) salt EM ltac:(lia) Hsalt Hsmall Eenc)
+      as (LEM & _).
+    unfold raw_private_key_op_bytes. rewrite LEM, EL.
+    destruct (numBytes n - 1 =? numBytes n) eqn:E; [apply Z.eqb_eq in E; lia|]. cbn [negb].
+    eexists. reflexivity.
+  Qed.
+End PssRsa.
